@@ -13,6 +13,7 @@ package main
 
 import (
 	"fmt"
+	"go/token"
 	"go/types"
 	"sort"
 	"strings"
@@ -26,6 +27,8 @@ type lockOrder struct {
 	acq     map[*ssa.Function]map[string]bool // transitive acquire summary
 	edges   map[string]map[string]string      // A -> B -> witness
 	selfs   map[string]string                 // A -> witness of re-acquiring A while holding A
+	blocks  []string                          // blocking channel operations executed while a mutex may be held
+	blockCl [][]string                        // the mutex classes held at each of them
 	impls   map[string][]*ssa.Function        // iface method key -> implementations in the module
 	callees map[*ssa.Function][]*ssa.Function
 }
@@ -244,6 +247,30 @@ func runLockOrder(w *World) *lockOrder {
 					continue
 				}
 				if record && len(cur) > 0 {
+					blocking := ""
+					switch t := ins.(type) {
+					case *ssa.Send:
+						blocking = "channel send"
+					case *ssa.Select:
+						if t.Blocking {
+							blocking = "blocking select"
+						}
+					case *ssa.UnOp:
+						if t.Op == token.ARROW {
+							blocking = "channel receive"
+						}
+					}
+					if blocking != "" {
+						var hs []string
+						for h := range cur {
+							hs = append(hs, h)
+						}
+						sort.Strings(hs)
+						lo.blockCl = append(lo.blockCl, hs)
+						lo.blocks = append(lo.blocks, fmt.Sprintf("%s: %s while holding %s (%s)", shortKey(funcKey(fn)), blocking, strings.Join(hs, ", "), posString(lo.w, ins.Pos())))
+					}
+				}
+				if record && len(cur) > 0 {
 					for _, g := range lo.targets(ins) {
 						for c := range lo.acq[g] {
 							for h := range cur {
@@ -397,6 +424,9 @@ func cmdLockOrder(args []string) {
 	}
 	for a, wit := range lo.selfs {
 		fmt.Printf("SELF %s : %s\n", a, wit)
+	}
+	for _, b := range lo.blocks {
+		fmt.Printf("BLOCK %s\n", b)
 	}
 	for _, c := range lo.cycles() {
 		fmt.Printf("CYCLE %s\n", strings.Join(c, " -> "))
